@@ -160,7 +160,11 @@ func checkC17(c CaseC17, x *hx.Ctx) *hx.Failure {
 		if f := c17Seq(pk, m, where); f != nil {
 			return f
 		}
+		// an independent copy: neither the slice nor the packets in it belong to the accumulator any more
 		for i := range pk {
+			if pk[i] != nil {
+				pk[i][0], pk[i][1], pk[i][99] = 0xEE, pk[i][1]^0xFF, pk[i][99]^0xFF
+			}
 			pk[i] = nil
 		}
 		pk2 := acc.Packets()
@@ -371,6 +375,10 @@ func c17Seq(got []*packet.Packet, m *c17Model, where string) *hx.Failure {
 	if !isSubseq(gb, m.may) {
 		return hx.Failf("packets-extra", "%s: Packets() (%d entries) contains something other than the packets submitted since the last unit start (%d), in order", where, len(gb), len(m.may))
 	}
+	// "exactly those packets": a packet that was refused with an error (no payload) was not accepted and is not listed
+	if len(gb) != len(m.must) {
+		return hx.Failf("packets-refused-listed", "%s: Packets() has %d entries, %d packets were accepted since the last unit start (a packet refused with an error is listed)", where, len(gb), len(m.must))
+	}
 	return nil
 }
 
@@ -391,8 +399,8 @@ func isSubseq(small, big [][]byte) bool {
 var propC17 = hx.Register(hx.Prop[CaseC17]{ID: "C17", Gen: genC17, Check: checkC17})
 
 func c17Rule() {
-	hx.Rec("C17").SetRule("cases: histories of 1..30 calls (WritePacket with a generated well-formed packet: PUSI on/off, payload-less, af_len 0, short payload behind stuffing, full payload, or the previous packet again byte for byte; Bytes; Packets; Reset) on one accumulator with a drawn predicate (done when >= k bytes, error when >= k bytes, done and error at once when >= k bytes, error exactly once (own error, the library's completion sentinel, or a wrapper of it) and not done afterwards, never, always; k from {0,1,10,184,185,300,368,500,1000}). Oracle: a three-state reference model (starting/accumulating/done, byte buffer, packet list); after EVERY call Bytes() and Packets() are compared with the model, returned slices are scribbled on and the caller's packet is modified to detect aliasing, and after a Reset a fresh accumulator is driven in lockstep (differential); a second accumulator is fed other packets between the steps, Reset at the same moments, and checked as well. Non-trivial: the history contains a second unit start, a write after completion, a predicate error, or a Reset.",
-		"a payload-less packet that passed the unit-start gate may or may not appear in Packets(): the list must contain the contributing packets in order and nothing but packets submitted since the last unit start",
+	hx.Rec("C17").SetRule("cases: histories of 1..30 calls (WritePacket with a generated well-formed packet: PUSI on/off, payload-less, af_len 0, short payload behind stuffing, full payload, or the previous packet again byte for byte; Bytes; Packets; Reset) on one accumulator with a drawn predicate (done when >= k bytes, error when >= k bytes, done and error at once when >= k bytes, error exactly once (own error, the library's completion sentinel, or a wrapper of it) and not done afterwards, never, always; k from {0,1,10,184,185,300,368,500,1000}). Oracle: a three-state reference model (starting/accumulating/done, byte buffer, packet list); after EVERY call Bytes() and Packets() are compared with the model, returned slices and the packets they point to are scribbled on and the caller's packet is modified to detect aliasing, and after a Reset a fresh accumulator is driven in lockstep (differential); a second accumulator is fed other packets between the steps, Reset at the same moments, and checked as well. Non-trivial: the history contains a second unit start, a write after completion, a predicate error, or a Reset.",
+		"Packets() is compared by content with the packets accepted since the last unit start (a packet refused with an error is not one of them)",
 		"only well-formed packets are written (malformed ones are C05's business)")
 }
 
